@@ -22,6 +22,17 @@ RCP<const Basic> MIntPoly::as_symbolic() const
 hash_t MIntPoly::__hash__() const
 {
     hash_t seed = SYMENGINE_MINTPOLY;
+    // Constant polynomials are equal irrespective of their variables (see
+    // __eq__), so their hash must not depend on the variables either.
+    if (get_poly().dict_.empty())
+        return seed;
+    if (get_poly().dict_.size() == 1
+        and get_poly().dict_.begin()->first
+                == vec_uint(get_poly().dict_.begin()->first.size(), 0)) {
+        hash_combine<hash_t>(seed,
+                             mp_get_si(get_poly().dict_.begin()->second));
+        return seed;
+    }
     for (auto var : get_vars())
         hash_combine<std::string>(seed, var->__str__());
 
@@ -70,6 +81,17 @@ RCP<const Basic> MExprPoly::as_symbolic() const
 hash_t MExprPoly::__hash__() const
 {
     hash_t seed = SYMENGINE_MEXPRPOLY;
+    // Constant polynomials are equal irrespective of their variables (see
+    // __eq__), so their hash must not depend on the variables either.
+    if (get_poly().dict_.empty())
+        return seed;
+    if (get_poly().dict_.size() == 1
+        and get_poly().dict_.begin()->first
+                == vec_int(get_poly().dict_.begin()->first.size(), 0)) {
+        hash_combine<Basic>(seed,
+                            *(get_poly().dict_.begin()->second.get_basic()));
+        return seed;
+    }
     for (auto var : get_vars())
         hash_combine<std::string>(seed, var->__str__());
 
